@@ -33,13 +33,35 @@ def bytesStr (bs : Bytes) : String :=
 /-- the deterministic resource name of `n` bytes that the token `R<n>` stands for (keeps op files small) -/
 def longName (n : Nat) : Bytes := (List.range n).map fun i => 97 + (i + i / 26) % 26
 
-/-- a resource token: `R<n>` = `longName n`, anything else literally -/
+def hexVal (c : Char) : Option Nat :=
+  if '0' ≤ c ∧ c ≤ '9' then some (c.toNat - 48) else if 'a' ≤ c ∧ c ≤ 'f' then some (c.toNat - 87) else none
+
+def parseHexBytes : List Char → Option Bytes
+  | [] => some []
+  | a :: b :: r => match hexVal a, hexVal b, parseHexBytes r with
+    | some x, some y, some t => some ((x * 16 + y) :: t)
+    | _, _, _ => none
+  | _ => none
+
+/-- a resource token: `R<n>` = `longName n`, `H<hex>` = the bytes (names with spaces, `:`, `,` … cannot be
+    written literally in an op line), anything else literally -/
 def resOfTok (r : String) : Bytes :=
   if r.startsWith "R" then
     match (r.drop 1).toString.toNat? with
     | some n => longName n
     | none => strBytes r
+  else if r.startsWith "H" then
+    match parseHexBytes (r.drop 1).toString.toList with
+    | some bs => bs
+    | none => strBytes r
   else strBytes r
+
+def hexDigitC (n : Nat) : Char := if n < 10 then Char.ofNat (48 + n) else Char.ofNat (87 + n)
+
+def hexOf (bs : Bytes) : String := String.ofList (bs.flatMap fun b => [hexDigitC (b / 16 % 16), hexDigitC (b % 16)])
+
+/-- bytes that can stand literally in a result line -/
+def safeByte (b : Nat) : Bool := decide (33 ≤ b) && b != 127 && b != 58 && b != 44 && b != 91 && b != 93
 
 def nameHash (bs : Bytes) : Nat := bs.foldl (fun h b => (h * 31 + b) % 4294967296) 0
 
@@ -47,7 +69,9 @@ def nameHash (bs : Bytes) : Nat := bs.foldl (fun h b => (h * 31 + b) % 429496729
 def showRes (bs : Bytes) : String :=
   if bs.length > 64 then
     (if bs == longName bs.length then s!"R{bs.length}" else s!"X{bs.length}:{nameHash bs}")
-  else bytesStr bs
+  else if bs.all safeByte && !(bs.isEmpty) then bytesStr bs
+  else if bs.isEmpty then ""
+  else "H" ++ hexOf bs
 
 def parseItem? (tok : String) : Option Item :=
   match tok.splitOn ":" with
@@ -69,16 +93,6 @@ def fileName (n : Name) : String :=
 /-- C17's own cases run with app name `v.app` (the dot becomes `-`) and optionally with the pid suffix -/
 def fileNameC (pid : Bool) (n : Name) : String :=
   "v-app-metrics.log" ++ (if pid then ".pidN" else "") ++ "." ++ bytesStr (dateStr n.1) ++ (if n.2 = 0 then "" else "." ++ toString n.2)
-
-def hexVal (c : Char) : Option Nat :=
-  if '0' ≤ c ∧ c ≤ '9' then some (c.toNat - 48) else if 'a' ≤ c ∧ c ≤ 'f' then some (c.toNat - 87) else none
-
-def parseHexBytes : List Char → Option Bytes
-  | [] => some []
-  | a :: b :: r => match hexVal a, hexVal b, parseHexBytes r with
-    | some x, some y, some t => some ((x * 16 + y) :: t)
-    | _, _, _ => none
-  | _ => none
 
 def getCache (s : St) (sid : String) : Cache :=
   match s.caches.find? (·.1 == sid) with
